@@ -24,6 +24,10 @@ func checkC01(c *Ctx, r *Report) {
 	checkQRSegments(c, r)
 	checkQRHeader(c, r)
 	checkQRCounts(c, r)
+	checkQRChooseMode(c, r)
+	// the statement quantifies over the requested pixel size: the rendering terms (same obligations as under C14)
+	declareRenderRules(r, 1)
+	renderQR(c, r)
 	checkChooseVersion(c, r) // two-pass version recommendation (same obligations as under C13)
 	checkPureAxis(c, r, [][2]string{{"qrcode", "QRCodeReader.extractPureBits"}, {"qrcode", "QRCodeReader.moduleSize"}})
 	// error discipline on the QR chain
@@ -43,7 +47,7 @@ func checkC01(c *Ctx, r *Report) {
 	runEXOR(c, r, nf, roots, 5)
 	reach := nf.reachableFrom(roots)
 	runENIL(c, r, nf, reach, 2)
-	r.Note("decided: the tables (C07 rules), the alphanumeric table pair, the per-group arithmetic of numeric / alphanumeric / Kanji segments as exact inverse transitions over their whole finite domains, the header field widths and count semantics, and the error discipline of the QR chain. Not decided: that embedDataBits and ReadCodewords are inverse traversals, interleave/de-interleave inversion for every block structure, Shift_JIS / UTF-8 transcoding, pure-barcode grid extraction, and the round trip itself")
+	r.Note("decided: the tables (C07 rules), the alphanumeric table pair, the per-group arithmetic of numeric / alphanumeric / Kanji segments as exact inverse transitions over their whole finite domains, the header field widths and count semantics, and the error discipline of the QR chain. Through the C07 rules also: interleave / de-interleave on tagged codewords, the zig-zag traversal with masking, terminator and padding. Not decided: Shift_JIS / UTF-8 transcoding (golang.org/x/text), the detector path, and the round trip as a whole (a composition of the decided parts over run-time payloads)")
 }
 
 // ---------------------------------------------------------------------------------------------------------------
@@ -978,4 +982,80 @@ func checkPureAxis(c *Ctx, r *Report, targets [][2]string) {
 		}
 		r.Check(bad == "", "S-AXIS", key, c.pos(fd.Pos()), bad)
 	}
+}
+
+// S-MODESEL: the mode chosen for a content can hold it
+func checkQRChooseMode(c *Ctx, r *Report) {
+	r.Rule("S-MODESEL", "chooseMode (without the Shift_JIS hint), folded for the empty string, every single byte and every pair of a byte with a representative of each character class in both orders, returns numeric exactly for all-digit content, alphanumeric exactly for content of the 45 ISO characters with at least one non-digit, and byte mode otherwise - a mode is never selected that cannot hold a character of the content", 1)
+	fd, p := c.funcDeclOf("qrcode/encoder", "chooseMode")
+	key := "qrcode/encoder.chooseMode"
+	if fd == nil {
+		r.AnchorLost("S-MODESEL", key, "function not found")
+		return
+	}
+	r.Analysed(key)
+	const alnum = "0123456789ABCDEFGHIJKLMNOPQRSTUVWXYZ $%*+-./:"
+	want := func(s string) string {
+		if s == "" {
+			return "Mode_BYTE"
+		}
+		allDigit, allAl := true, true
+		for i := 0; i < len(s); i++ {
+			ch := s[i]
+			if ch < '0' || ch > '9' {
+				allDigit = false
+			}
+			if !strings.ContainsRune(alnum, rune(ch)) || ch >= 0x80 {
+				allAl = false
+			}
+		}
+		switch {
+		case allDigit:
+			return "Mode_NUMERIC"
+		case allAl:
+			return "Mode_ALPHANUMERIC"
+		}
+		return "Mode_BYTE"
+	}
+	env := map[types.Object]*Val{}
+	if o := c.lookupObj("common", "StringUtils_SHIFT_JIS_CHARSET"); o != nil {
+		env[o] = vstr("var:SJIS")
+	}
+	var inputs []string
+	inputs = append(inputs, "")
+	reps := []byte{'0', '5', '9', 'A', 'Z', ' ', '$', '%', '*', '+', '-', '.', '/', ':', 'a', 'z', 0, 0x1f, '!', '#', ',', ';', '@', '[', '`', 0x7f, 0x80, 0xe9, 0xff}
+	for b := 0; b < 256; b++ {
+		inputs = append(inputs, string([]byte{byte(b)}))
+		for _, rp := range reps {
+			inputs = append(inputs, string([]byte{byte(b), rp}), string([]byte{rp, byte(b)}))
+		}
+	}
+	bad := ""
+	for _, in := range inputs {
+		h := &rpf{unroll: 100, env: env}
+		h.selHook = func(rr *rpf, sel *ast.SelectorExpr) (*Val, bool) {
+			if strings.HasPrefix(sel.Sel.Name, "Mode_") {
+				return vstr(sel.Sel.Name), true
+			}
+			if sel.Sel.Name == "StringUtils_SHIFT_JIS_CHARSET" {
+				return vstr("var:SJIS"), true
+			}
+			return nil, false
+		}
+		res, err := c.rpfCall(fd, p, []*Val{vstr(in), vstr("enc:other")}, h)
+		if err != nil {
+			bad = "?" + err.Error()
+			break
+		}
+		if len(res) != 1 || res[0].K != VStr || res[0].S != want(in) {
+			got := "?"
+			if len(res) == 1 && res[0].K == VStr {
+				got = res[0].S
+			}
+			bad = fmt.Sprintf("chooseMode(%q) selects %s; the content needs %s", in, got, want(in))
+			break
+		}
+	}
+	r.Extra("S-MODESEL inputs", len(inputs))
+	reportFold(r, c, "S-MODESEL", key, fd.Pos(), bad)
 }
